@@ -49,7 +49,16 @@ fn main() {
     for fam in &fams {
         match fam.as_str() {
             "track" => family::<Track>(&mut f, states, true),
-            "copy" => family::<Copyf>(&mut f, states, true),
+            "copy" => {
+                family::<Copyf>(&mut f, states, true);
+                // capacities beyond the 32- and 64-slot marks
+                let (si, sn) = f.cx.shard;
+                for i in 0..states.min(6) {
+                    f.map_state::<Copyf, 40>(si + i * sn);
+                    f.map_state::<Copyf, 70>(si + i * sn);
+                    f.set_state::<Copyf, 40>(si + i * sn);
+                }
+            }
             "raw" => family::<Raw>(&mut f, states, true),
             "heap" => family::<Heap>(&mut f, states, true),
             "large" => family::<Large>(&mut f, states.min(40), false),
